@@ -143,4 +143,13 @@ theorem run_ok {R : Routing} (h : R.perKind = true) (steps : List Step) :
     ∀ kr ∈ (run R steps).1, okRes kr.1 kr.2 :=
   finish_ok (inv_runFrom h steps (inv_init R))
 
+theorem wrapper_no_trap (o : Bool) (es : List WEv) : WRes.trap ∉ wrapper true true o es := by
+  induction es generalizing o with
+  | nil => simp [wrapper]
+  | cons e es ih =>
+    cases e <;> simp only [wrapper, List.mem_cons, not_or] <;> refine ⟨?_, ih _⟩
+    · intro h; cases h
+    · cases o <;> simp
+    · cases o <;> simp
+
 end Kap.C05.Rr
